@@ -81,6 +81,11 @@ def cases(tier, seed):
         M = int(rng.integers(2, 6))
         cs.append(dict(kind='verlet', qt=qt, nt='LEGENDRE' if i % 3 else 'EQUID', M=M, dtexp=float(rng.uniform(-2, 0)), tau=False,
                        coll_update=bool(rng.random() < 0.4), t0=float(rng.uniform(0, 2)), seed=int(rng.integers(0, 2**31)), _cost=M * M))
+    for i in range(90 if tier == 'quick' else 2400):
+        which = ['fully', 'semi', 'fully', 'semi', ['BackwardEulerDAE', 'TrapezoidalRuleDAE', 'EDIRK4DAE', 'DIRK43_2DAE'][(i // 5) % 4]][i % 5]
+        cs.append(dict(kind='dae', which=which, n=int(rng.integers(1, 4)), M=int(rng.integers(1, 6)), qt=['RADAU-RIGHT', 'RADAU-RIGHT', 'GAUSS', 'LOBATTO'][int(rng.integers(0, 4))],
+                       nt=NODE_TYPES[int(rng.integers(0, len(NODE_TYPES)))], QI=lower[int(rng.integers(0, len(lower)))] if rng.random() < 0.6 else ['IE', 'LU', 'MIN-SR-S', 'MIN-SR-FLEX'][int(rng.integers(0, 4))],
+                       k=int(rng.integers(1, 5)), dtexp=float(rng.uniform(-2.5, -0.3)), t0=float(rng.uniform(-1, 3)), seed=int(rng.integers(0, 2**31)), _cost=6))
     alphas = [0.3, 1e-1, 1e-2, 1e-3, 1e-4, 1e-6, 1e-8]
     for i in range(60 if tier == 'quick' else 1200):
         cs.append(dict(kind='paradiag', M=int(rng.integers(1, 6)), n=int(rng.integers(1, 5)), L=int(rng.integers(1, 13)), alpha=float(alphas[int(rng.integers(0, len(alphas)))]),
@@ -465,6 +470,154 @@ def run_verlet(case, r):
     r.sample = dict(case={k: v for k, v in case.items() if not k.startswith('_')})
 
 
+def run_dae(case, r):
+    """DAE project sweepers on a dense semi-explicit linear index-1 DAE: the stage equations the sweeper promises hold for the
+    derivative/algebraic values it stores, the solution is u0 + dt Q U' and integrate() returns dt Q U' (reference Q, QDelta from qmat)"""
+    from pySDC.projects.DAE.sweepers.fullyImplicitDAE import FullyImplicitDAE
+    from pySDC.projects.DAE.sweepers.semiImplicitDAE import SemiImplicitDAE
+
+    from vf import harness_problems as hp
+    from vf.levelkit import make_step, rand_matrix
+    from vf.ref import sdc as ref
+
+    rng = np.random.default_rng(case['seed'])
+    n, M, which = case['n'], case['M'], case['which']
+    dt = 10 ** case['dtexp']
+    t0 = case['t0']
+    A11, A12, A21 = rand_matrix(rng, n, 'stable', False), rand_matrix(rng, n, 'any', False, scale=0.7), rand_matrix(rng, n, 'any', False, scale=0.7)
+    A22 = np.eye(n) + 0.4 * rand_matrix(rng, n, 'any', False)
+    pp = dict(A11=A11, A12=A12, A21=A21, A22=A22, c1=rng.standard_normal(n), c2=rng.standard_normal(n), w=float(rng.uniform(0.5, 3)))
+    DAE = hp.make_dense_dae()
+    r.key = f"dae/{which}/{case['QI']}/{case['nt']}/{case['qt']}/{M}/{n}/k{case['k']}"
+    tag = r.key + f' dt={dt:.3g}'
+    if which in ('fully', 'semi'):
+        cls = FullyImplicitDAE if which == 'fully' else SemiImplicitDAE
+        swp = dict(num_nodes=M, quad_type=case['qt'], node_type=case['nt'], QI=case['QI'])
+        try:
+            gen = ref.coll(M, case['nt'], case['qt'])
+            QD = ref.qdelta(gen, case['QI'], case['k'])
+            S = make_step(DAE, pp, cls, swp, dict(dt=dt))
+        except Exception as e:  # noqa
+            r.count('rejected_at_construction')
+            r.observe('rejected', f"{which}:{case['QI']}:{case['qt']}:{type(e).__name__}")
+            r.check(True, 'noop', '')
+            return
+        if np.any(np.abs(np.diag(QD)) < 1e-14) or not np.all(np.isfinite(QD)):
+            r.count('singular_stage_system')  # a zero diagonal entry leaves the algebraic unknown undetermined
+            r.check(True, 'noop', '')
+            return
+        L = S.levels[0]
+        P = L.prob
+        Q = np.array(gen.Q)
+        nodes = np.array(gen.nodes)
+        L.status.time = t0
+        L.status.unlocked = True
+        L.status.sweep = case['k']
+        if ref.kdependent(gen, case['QI']):
+            L.sweep.updateVariableCoeffs(case['k'])
+        # arbitrary (not consistent) node values and derivative values
+        u0y, u0z = rng.standard_normal(n), rng.standard_normal(n)
+        L.u[0] = P.dtype_u(P.init)
+        L.u[0].diff[:], L.u[0].alg[:] = u0y, u0z
+        L.f[0] = P.dtype_f(P.init)
+        Wy_old, Wz_old, Z_old = rng.standard_normal((M, n)), rng.standard_normal((M, n)), rng.standard_normal((M, n))
+        for m in range(M):
+            L.u[m + 1] = P.dtype_u(P.init)
+            L.u[m + 1].diff[:], L.u[m + 1].alg[:] = rng.standard_normal(n), Z_old[m]
+            L.f[m + 1] = P.dtype_f(P.init)
+            L.f[m + 1].diff[:], L.f[m + 1].alg[:] = Wy_old[m], Wz_old[m]
+        # integrate() before the sweep
+        integ = L.sweep.integrate()
+        ey = float(max(np.max(np.abs(np.asarray(integ[m].diff) - dt * (Q[m] @ Wy_old))) for m in range(M)))
+        r.check(ey <= 1e-12 * (1 + float(np.max(np.abs(Wy_old)))), 'integrate', f'{tag}: integrate() differs from dt*Q*U\' (differential part) by {ey:.3e}')
+        if which == 'fully':
+            ez = float(max(np.max(np.abs(np.asarray(integ[m].alg) - dt * (Q[m] @ Wz_old))) for m in range(M)))
+            r.check(ez <= 1e-12 * (1 + float(np.max(np.abs(Wz_old)))), 'integrate', f'{tag}: integrate() differs from dt*Q*U\' (algebraic part) by {ez:.3e}')
+        try:
+            L.sweep.update_nodes()
+        except Exception as e:  # noqa
+            from vf.core import in_sut
+
+            r.check(False, 'no-exception', f'{tag}: update_nodes raised {type(e).__name__}: {e}')
+            return
+        Wy = np.array([np.asarray(L.f[m + 1].diff) for m in range(M)])
+        Wz = np.array([np.asarray(L.f[m + 1].alg) for m in range(M)])
+        Uy = np.array([np.asarray(L.u[m + 1].diff) for m in range(M)])
+        Uz = np.array([np.asarray(L.u[m + 1].alg) for m in range(M)])
+        QDn = QD
+        sc = 1 + max(float(np.max(np.abs(x))) for x in (Wy, Wz, Uy, Uz, Wy_old, Wz_old))
+        worst = 0.0
+        for m in range(M):
+            tm = t0 + dt * nodes[m]
+            c = dt * QDn[m, m]
+            ya = u0y + dt * ((Q[m] - QDn[m]) @ Wy_old) + dt * (QDn[m, :m] @ Wy[:m])
+            if which == 'fully':
+                za = u0z + dt * ((Q[m] - QDn[m]) @ Wz_old) + dt * (QDn[m, :m] @ Wz[:m])
+                y, z = ya + c * Wy[m], za + c * Wz[m]
+            else:
+                y, z = ya + c * Wy[m], Uz[m]
+            res_d = Wy[m] - (A11 @ y + A12 @ z + P.g1(tm))
+            res_a = A21 @ y + A22 @ z + P.g2(tm)
+            worst = max(worst, float(np.max(np.abs(res_d))), float(np.max(np.abs(res_a))))
+        r.check(worst <= 1e-8 * sc, 'update-nodes', f'{tag}: the stored derivative/algebraic values violate the stage equations of the {which}-implicit DAE sweep by {worst:.3e} (scale {sc:.2e})')
+        e = float(np.max(np.abs(Uy - (u0y[None, :] + dt * (Q @ Wy)))))
+        r.check(e <= 1e-12 * sc, 'update-nodes', f'{tag}: differential node values are not u0 + dt*Q*U\' ({e:.3e})')
+        if which == 'fully':
+            e = float(np.max(np.abs(Uz - (u0z[None, :] + dt * (Q @ Wz)))))
+            r.check(e <= 1e-12 * sc, 'update-nodes', f'{tag}: algebraic node values are not z0 + dt*Q*Z\' ({e:.3e})')
+        else:
+            r.check(np.array_equal(Wz, Wz_old), 'update-nodes', f'{tag}: the semi-implicit sweep changed the stored derivative of the algebraic part')
+        # end point = last node (right node required)
+        if case['qt'] in ('RADAU-RIGHT', 'LOBATTO'):
+            L.sweep.compute_end_point()
+            r.check(np.array_equal(np.asarray(L.uend), np.asarray(L.u[M])), 'end-point', f'{tag}: uend is not the last node value')
+        else:
+            r.count('dae_end_point_not_offered_without_right_node')
+        r.nontrivial = True
+        r.observe('family', 'dae_' + which)
+    else:
+        import pySDC.projects.DAE.sweepers.rungeKuttaDAE as RD
+
+        cls = getattr(RD, which)
+        try:
+            S = make_step(DAE, pp, cls, {}, dict(dt=dt))
+        except Exception as e:  # noqa
+            r.check(False, 'no-exception', f'{tag}: construction raised {type(e).__name__}: {e}')
+            return
+        L = S.levels[0]
+        P = L.prob
+        L.status.time = t0
+        L.status.sweep = 1
+        y0 = rng.standard_normal(n)
+        u0, du0 = P.consistent(y0, t0)
+        # du_exact of the workload belongs to y = 1: hand the sweeper the consistent derivative of THIS start value
+        P.du_exact = lambda t, du0=du0: P.dtype_u(du0)
+        L.u[0] = P.dtype_u(u0)
+        L.sweep.predict()
+        L.sweep.update_nodes()
+        A = np.array(cls.matrix, dtype=float)
+        nodes = np.array(cls.nodes, dtype=float)
+        Ms = A.shape[0]
+        W = np.array([[np.asarray(L.f[m + 1].diff), np.asarray(L.f[m + 1].alg)] for m in range(Ms)])
+        U = np.array([[np.asarray(L.u[m + 1].diff), np.asarray(L.u[m + 1].alg)] for m in range(Ms)])
+        sc = 1 + float(max(np.max(np.abs(W)), np.max(np.abs(U))))
+        worst = 0.0
+        for m in range(Ms):
+            tm = t0 + dt * nodes[m]
+            y = np.asarray(u0.diff) + dt * sum(A[m, j] * W[j, 0] for j in range(m + 1))
+            z = np.asarray(u0.alg) + dt * sum(A[m, j] * W[j, 1] for j in range(m + 1))
+            res_d = W[m, 0] - (A11 @ y + A12 @ z + P.g1(tm))
+            res_a = A21 @ y + A22 @ z + P.g2(tm)
+            worst = max(worst, float(np.max(np.abs(res_d))), float(np.max(np.abs(res_a))))
+            e = float(max(np.max(np.abs(U[m, 0] - y)), np.max(np.abs(U[m, 1] - z))))
+            r.check(e <= 1e-12 * sc, 'rk-stages', f'{tag}: stage {m} value is not u0 + dt*sum_j a_mj U\'_j ({e:.3e})')
+        r.check(worst <= 1e-8 * sc, 'rk-stages', f'{tag}: stage derivatives violate F(u0 + dt*sum a_mj U\'_j, U\'_m, t_m) = 0 by {worst:.3e}')
+        r.nontrivial = True
+        r.observe('family', 'dae_rk')
+        r.observe('rk_dae_class', which)
+    r.sample = dict(case={k: v for k, v in case.items() if not k.startswith('_')})
+
+
 def run_case(case):
     r = Result(case)
     with np.errstate(invalid='raise', over='raise', divide='raise'):
@@ -472,6 +625,9 @@ def run_case(case):
             run_sdc(case, r)
         elif case['kind'] == 'rk':
             run_rk(case, r)
+        elif case['kind'] == 'dae':
+            with np.errstate(all='warn'):
+                run_dae(case, r)
         elif case['kind'] == 'paradiag':
             # diagonal/ParaDiag sweepers (QDiagonalization, QDiagonalizationIMEX): the solve prescribed by Q and G_inv, as
             # configured at construction and after every later set_G_inv (harness and oracle shared with C15)
@@ -495,7 +651,7 @@ def finalize(agg):
     fam = agg['seen'].get('family', set())
     if c.get('oracle:diagonalisation-sweep-solves-collocation', 0) == 0 or c.get('reconfigured_sweeps', 0) == 0:
         out.append('ParaDiag sweepers never reached the solve oracle (or never after a reconfiguration)')
-    for f in FAMILIES + ['verlet', 'paradiag']:
+    for f in FAMILIES + ['verlet', 'paradiag', 'dae_fully', 'dae_semi', 'dae_rk']:
         if f not in fam:
             out.append(f'sweeper family {f} never reached the node-value oracle')
     if len(agg['seen'].get('rk_class', ())) < 10:
